@@ -47,6 +47,7 @@ void vrt_client_read (const void *addr, const char *what);
 void vrt_count (const char *key);
 /* memory: is this address inside a block that vrt_free has released? */
 int vrt_is_freed (const void *p);
+size_t vrt_region_size (const void *p);   /* size of the registered region / allocated block containing p (0 if none) */
 /* allocation fault injection: fail the k-th allocation from now (1-based), 0 = never */
 void vrt_fail_alloc_after (int k);
 int vrt_alloc_count (void);
